@@ -108,7 +108,7 @@ def check(ctx):
     if sem is not None:
         for rule_, label_, ok_, text_ in sem:
             run.add(rule_, jmod.name, 'DznJsonAst.process', label_, ok_, text_)
-        run.stats['traversal_decided_by'] = 'interpretation of DznJsonAst.process() on the scenario document (E6), leaf parsers by contract'
+        run.stats['traversal_decided_by'] = 'interpretation of DznJsonAst.process() on the scenario document (E7), leaf parsers by contract'
         if all(ok_ for _r, _l, ok_, _t in sem):
             run.floor('C05.dispatch', 20)
             run.floor('C05.siblings', 3)
@@ -846,7 +846,7 @@ def _types_loop(ctx, fn: FuncInfo, var: Optional[str]):
             'nested types are appended in source order' if ok else 'nested types are not collected in source order')
 
 
-# ---- the traversal decided by interpretation (E6) --------------------------------------------------------------------------------
+# ---- the traversal decided by interpretation (E7) --------------------------------------------------------------------------------
 def _traversal_by_interpretation(ctx):
     """DznJsonAst.process() interpreted (dznverif.scenario) on a scenario document, the leaf parsers replaced by their
     contract.  The traversal - process / parse_element and whatever they are organised into: if-chains, tables of functions or
